@@ -220,5 +220,62 @@ fn region_write_read() {
     kani::cover!(len == 8 && gcnt > 1);
 }
 
+/// typed references and element arrays: one volatile access of the element's width at the element's address
+#[kani::proof]
+#[kani::unwind(10)]
+#[kani::stub(core::ptr::read_volatile, rv_stub)]
+#[kani::stub(core::ptr::write_volatile, wv_stub)]
+fn typed_ref_and_array() {
+    let mut mem = Aligned::<N>::any();
+    let gb = mem.base();
+    let off: usize = kani::any();
+    let i: usize = kani::any();
+    let n: usize = kani::any();
+    let do_store: bool = kani::any();
+    let via_array: bool = kani::any();
+    let mut addr = 0usize;
+    let mut done = false;
+    {
+        let s = VolatileSlice::from(&mut mem.0[..]);
+        if via_array {
+            let r = s.get_array_ref::<u32>(off, n);
+            if let Ok(a) = &r {
+                kani::assume(i < n);
+                if do_store {
+                    a.store(i, kani::any())
+                } else {
+                    let _ = a.load(i);
+                }
+                addr = gb + off + 4 * i;
+                done = true;
+            }
+            leak(r);
+        } else {
+            let r = s.get_ref::<u32>(off);
+            if let Ok(v) = &r {
+                if do_store {
+                    v.store(kani::any())
+                } else {
+                    let _ = v.load();
+                }
+                addr = gb + off;
+                done = true;
+            }
+            leak(r);
+        }
+    }
+    if done {
+        let k = if do_store { 1u8 } else { 0u8 };
+        assert!(count() == 1 && count_kind(k) == 1);
+        let a = at_kind(k, 0);
+        assert!(a.addr == addr && a.width == 4);
+    } else {
+        assert!(count() == 0);
+    }
+    kani::cover!(done && via_array && i > 0 && do_store);
+    kani::cover!(done && !via_array && !do_store);
+    kani::cover!(!done);
+}
+
 // (guest-memory level through a real GuestMemoryMmap + trace stubs ran CBMC out of memory (20 GB); the guest level funnels into
 // GuestRegionMmap::write/read via the blanket impl and try_access, whose chunking is decided in C03 and C07.)
